@@ -1124,6 +1124,67 @@ func cbkReentry(r *h.Report, base int, skips bool) bool {
 			}
 		}
 	}
+	// a RESULT callback that re-enters: it registers a response callback for the follow-up request
+	for _, f := range []int{1, 0} {
+		ops := []string{fmt.Sprintf("reentry result-callback of feature %d registers a response callback, then a result and the follow-up arrival", f)}
+		w := newCbkWorld(true)
+		cbkSettle(base)
+		w.log.take()
+		feat := w.feats[f]
+		var once int32
+		feat.AddResultCallback(func(m api.ResponseMessage) {
+			w.log.add(20, true, m)
+			if atomic.AddInt32(&once, 1) == 1 {
+				_ = feat.AddResponseCallback(31, cbkMk2(w.log, 10))
+			}
+		})
+		for i, a := range []struct {
+			kind string
+			ref  int
+		}{{"result0", 30}, {"result1", 31}} {
+			done := make(chan struct{})
+			w.ctr++
+			ctr, a, arrival := w.ctr, a, 810+i
+			go func() {
+				defer close(done)
+				cl, cmd, _ := cbkPayload(f, a.kind, arrival, 1)
+				w.send(1, f, cl, ctr, util.Ptr(model.MsgCounterType(a.ref)), cbkSrc(1, f), cmd)
+			}()
+			if !cbkWithin(done, bound) {
+				r.SpecFail(cbkReentryKey, ops, fmt.Sprintf("HandleSpineMesssage of result %d (reference %d) did not return within %v of kept time: a result callback is invoked on the message-processing goroutine while the registry mutex is held", i+1, a.ref, bound))
+				return false
+			}
+			if !cbkSettle(base) {
+				r.SpecFail(cbkReentryKey, ops, "the result callback's call back into the feature did not return")
+				return false
+			}
+		}
+		nRes, nFollow := 0, 0
+		for _, x := range w.log.take() {
+			switch x.reg {
+			case 20:
+				nRes++
+			case 10:
+				nFollow++
+				if int(x.msg.MsgCounterReference) != 31 || cbkDataNum(x.msg.Data) != 811 {
+					r.SpecFail("C14/callback-invoked-for-other-message", ops, fmt.Sprintf("follow-up callback invoked with reference %d, data of arrival %d", x.msg.MsgCounterReference, cbkDataNum(x.msg.Data)))
+					return false
+				}
+			}
+		}
+		if nRes != 2 {
+			r.SpecFail("C14/result-callback-count", ops, fmt.Sprintf("two results referencing requests: the result callback was invoked %d times", nRes))
+			return false
+		}
+		if nFollow != 1 {
+			r.SpecFail("C14/callback-not-invoked", ops, fmt.Sprintf("the response callback registered from inside the result callback for counter 31 was invoked %d times by the result referencing 31", nFollow))
+			return false
+		}
+		w.close()
+		cbkSettle(base)
+		r.Eval("reentry-case", "")
+		r.Dist["reentry:result-callback-reenters"]++
+	}
 	r.Info["reentry"] = fmt.Sprintf("%d paths x {1,3} callbacks per counter x %d behaviours of the first callback (re-entering the feature / slow with a concurrent registration): delivery returned, every registration invoked exactly once", len(paths), len(actions))
 	return true
 }
